@@ -38,6 +38,10 @@ def run(tier):
         IC.verify_integrate(src, reg, PID + "/after-a-failure", callbacks=1, status0=ExcVal("FailedIntegration", tag="earlier-failure"), drop_status_post=True)
         for implicit, adaptive in ((False, True), (True, False), (False, False)):
             R.under_contract(intcall.check_rk_call_faults(reg, src, PID, implicit, adaptive))
+        # reset() after a failure -- from any failed state, in particular one in which the fault hit the very first step (no step
+        # recorded, status = the failure object, dt already clamped, evaluations counted): the pristine system again (C13's obligations)
+        from . import C13
+        R.under_contract(C13.check_reset(reg, src, PID, status0=ExcVal("FailedIntegration", tag="failed-call"), label=",after-a-failure"))
         # faults inside the event block (an event function raises; the re-integration to a terminal event fails): the exceptional
         # post-condition includes the representation invariant of the interpolants -- dense output kept: exactly one piece per recorded
         # step, in both run directions -- so that the next call may start from the failed state
